@@ -50,7 +50,7 @@ macro_rules! from_feel_number_into {
     impl TryFrom<&FeelNumber> for $l {
       type Error = DmntkError;
       fn try_from(value: &FeelNumber) -> Result<Self, Self::Error> {
-        return value.to_string().parse::<$l>().map_err(|_| err_number_conversion_failed());
+        return scientific_to_plain(dec_to_string(&dec_reduce(&value.0))).parse::<$l>().map_err(|_| err_number_conversion_failed());
       }
     }
   };
